@@ -5,6 +5,7 @@ import VtProofs.Hilbert
 import VtProofs.VersatilesWrite
 import VtProofs.MBTiles
 import VtProofs.TarDir
+import VtProofs.PMTilesWrite
 /-!
 # C01 — container round trip is lossless for every tile set and every format
 
@@ -88,6 +89,42 @@ theorem versatiles_dedup_step {M n : Nat} {done : List (Nat × Bytes)} {s : Vers
     (hM : payload.length < M) (hnew : ∀ d ∈ done, d.1 ≠ i) :
     VtProofs.VersatilesBlock.Inv M n ((i, payload) :: done) (Versatiles.putAt i s payload) :=
   VtProofs.VersatilesBlock.putAt_inv inv i payload hi hM hnew
+
+/-! ## PMTiles: the container round trip -/
+
+open VtProofs.PMTilesWrite in
+/-- **C01 (PMTiles), full strength** — for every source (valid level boxes with increasing zoom, per
+    grid cell a stream enumerating the cell's tiles once each, at most 10^10 tiles) and every
+    compressor `enc` with decompressor `K` (`K.gzip (enc b) = some b`, empty input rejected): if the
+    writer returns a file below 2^64 bytes, the reader opens it (header, metadata, root directory,
+    coverage walk), declares the tile type / compression the header can express, and every lookup of
+    a valid coordinate returns the source's payload if it is non-empty and `None` otherwise.
+    Proof: Hilbert ids are injective, so the sorted entries have strictly increasing ids; a root-only
+    directory is a well-formed tree of height 0, the root/leaf split (`build_roots_leaves`, any leaf
+    size ≥ 1 that the `f32` growth loop may choose) a well-formed tree of height 1 whose leaves
+    partition the entries; the positional writes produce header | root | padding | metadata | tile
+    data | leaves; hence the file satisfies `ValidPMTiles` and the reader is complete for it (C16). -/
+theorem pmtiles_roundtrip (K : Inflate) (enc : Bytes → Bytes) (s : PMTiles.Source)
+    (tiles : Nat × Nat × Nat → Option Bytes) (gs : GoodStream s.levels s.stream tiles)
+    (hK : ∀ b, K.gzip (enc b) = some b) (hnil : K.gzip [] = none)
+    (hmeta : ∃ raw, K.run .gzip s.metaB = .ok raw) (hcz : s.cz < 256)
+    (hgeo : VtProofs.VersatilesWrite.i32ok s.minlon ∧ VtProofs.VersatilesWrite.i32ok s.minlat ∧
+      VtProofs.VersatilesWrite.i32ok s.maxlon ∧ VtProofs.VersatilesWrite.i32ok s.maxlat ∧
+      VtProofs.VersatilesWrite.i32ok s.clon ∧ VtProofs.VersatilesWrite.i32ok s.clat)
+    (hcount : ((s.levels.flatMap PMTiles.grid256).flatMap s.stream).length ≤ 10000000000)
+    (file : Bytes) (hw : PMTiles.write enc s = .ok file) (hsize : file.length < U64) :
+    ∃ r, PMTiles.openReader K file = .ok r ∧
+      PMTiles.fmtOfType r.header.ttype = PMTiles.fmtOfType (PMTiles.typeCode s.fmt) ∧
+      PMTiles.compOfCode r.header.tcomp = .ok s.comp ∧
+      ∀ x y z, z ≤ 31 → x < 2 ^ z → y < 2 ^ z →
+        PMTiles.getTile r x y z = .ok (VtProofs.VersatilesWrite.nonEmpty (tiles (x, y, z))) :=
+  VtProofs.PMTilesRead.pmtiles_complete
+    (write_valid_full K enc s tiles gs hK hnil hmeta hcz hgeo hcount file hw hsize)
+
+/-- formats the PMTiles header can express are declared unchanged -/
+theorem pmtiles_format_preserved (f : TileFormat) (h : f = .pbf ∨ f = .png ∨ f = .jpg ∨ f = .webp ∨ f = .avif ∨ f = .bin) :
+    PMTiles.fmtOfType (PMTiles.typeCode f) = f := by
+  rcases h with h | h | h | h | h | h <;> subst h <;> rfl
 
 /-! ## mbtiles -/
 
